@@ -144,6 +144,18 @@ Proof. exact tslice_old_dup_refuted. Qed.
 Theorem C03_tslice_dup_fixed : tslice_during dup_self dup_epoch = XOk (0%nat, 3%nat).
 Proof. exact dup_new. Qed.
 
+(* integer selection self[k] (Python int or any numpy integer scalar, code after fix f2c2916): the time
+   stored at Python position k, as a 0-d time object in the unit of self; outside -> IndexError *)
+Theorem C03_tarr_getint : forall self k,
+  let n := Z.of_nat (length (payload self)) in
+  (0 <= k < n -> exists x, nth_error (payload self) (Z.to_nat k) = Some x /\ tarr_getint self k = XOk (mk_tarr [x] (tunit self) true)) /\
+  (- n <= k < 0 -> exists x, nth_error (payload self) (Z.to_nat (k + n)) = Some x /\ tarr_getint self k = XOk (mk_tarr [x] (tunit self) true)) /\
+  (k < - n \/ n <= k -> tarr_getint self k = XErr XIndex).
+Proof. exact tarr_getint_spec. Qed.
+Theorem C03_uaxis_getint_sample : forall t0 dt n u k, (k < n)%nat ->
+  uaxis_getint (uaxis_of t0 dt n u) (Z.of_nat k) = XOk (mk_tarr [t0 + Z.of_nat k * dt] u true).
+Proof. exact uaxis_getint_sample. Qed.
+
 (* at(): the samples at the positions index_at returns *)
 Theorem C03_tat_gather : forall self d tol r, index_at self d tol Closest = XOk (IList r) ->
   tarr_at self d tol = (do v <- gather (payload self) r; XOk (mk_tarr v (tunit self) false)).
@@ -356,4 +368,8 @@ Example C03_ex_epochs_getitem :
   /\ epochs_getitem ex_eps (EMask [true; false; true]) = XOk (mk_epochs [-7; 7] [1; 15] false (mk_tarr [-3] Ups true) Ups)
   /\ series_during ex_series (mk_epochs [0] [8] true (mk_tarr [-3] Ups true) Ups)
      = XOk (mk_dout (DOne [[1; 11]; [2; 12]]) (-3) 7 Ups).
+Proof. repeat split; vm_compute; reflexivity. Qed.
+Example C03_ex_getint : tarr_getint dup_self (-1) = XOk (mk_tarr [5000000000] Ums true)
+  /\ tarr_getint dup_self 4 = XErr XIndex
+  /\ uaxis_getint (uaxis_of ex_t0 ex_dt 10 Ums) 9 = XOk (mk_tarr [15000000000] Ums true).
 Proof. repeat split; vm_compute; reflexivity. Qed.
